@@ -414,17 +414,20 @@ XmmNames == {"xmm0", "xmm1", "xmm2", "xmm3", "xmm4", "xmm5", "xmm6", "xmm7", "xm
 StNames == {"st0", "st1"}
 HardRegNames == GprNames \cup XmmNames \cup StNames        \* the x86_64 list of MIR.md
 NotHardRegNames == {"foo", "r16", "xmm16", "st2", "eax", "R12", "hr12", "r0", "sp"}   \* r0, sp: other targets' names
-NaturalPair(hr, t) == (hr \in GprNames /\ t = "i64") \/ (hr \in XmmNames /\ t \in {"f", "d"}) \/ (hr \in StNames /\ t = "ld")
+(* MIR.md (corrected): "general registers can keep only MIR_T_I64 variables, xmm registers only MIR_T_F or MIR_T_D ones;  *)
+(* rsp, rbp, r10, r11, xmm8, xmm9, st0 and st1 are reserved for the generator and can not be tied to a variable"      *)
+ReservedHardRegs == {"rsp", "rbp", "r10", "r11", "xmm8", "xmm9", "st0", "st1"}
+NaturalPair(hr, t) == hr \notin ReservedHardRegs /\ ((hr \in GprNames /\ t = "i64") \/ (hr \in XmmNames /\ t \in {"f", "d"}))
 DStep(n, t, hr) == [n |-> n, t |-> t, hr |-> hr]
 GDeclCheck(prev, st) ==
   LET declared == {"a1"} \cup {prev[i].n : i \in 1..Len(prev)}
   IN [v |-> (IF st.t \notin {"i64", "u64", "f", "d", "ld"} THEN {"RegType"} ELSE {})
             \cup (IF st.n \in DocReserved THEN {"RegReserved"} ELSE {})
             \cup (IF st.n \in declared THEN {"RegRepeated"} ELSE {})
-            \cup (IF st.hr # "-" /\ st.hr \notin HardRegNames THEN {"HardRegUnknown"} ELSE {}),
+            \cup (IF st.hr # "-" /\ (st.hr \notin HardRegNames \/ st.hr \in ReservedHardRegs) THEN {"HardRegUnknown"} ELSE {}),
       u |-> (IF st.t = "u64" THEN {"U64Reg"} ELSE {})
             \cup (IF st.n \in UndocReserved THEN {"UndocumentedReservedName"} ELSE {})
-            \cup (IF st.hr \in HardRegNames /\ ~NaturalPair(st.hr, st.t) THEN {"HardRegTypePairing"} ELSE {})
+            \cup (IF st.hr \in HardRegNames \ ReservedHardRegs /\ ~NaturalPair(st.hr, st.t) THEN {"HardRegTypePairing"} ELSE {})
             \cup (IF st.hr # "-" /\ \E i \in 1..Len(prev) : prev[i].hr = st.hr /\ prev[i].n # st.n
                    THEN {"TwoNamesOneHardReg"} ELSE {})]
 MkVerdict(c) ==
